@@ -29,7 +29,10 @@ Theorem C30_current :
 Proof. exact frames_invariant. Qed.
 Print Assumptions C30_current.
 
-(* full statement, for the order of checks with the input check at the front of CALL *)
+(* NOT the code as it is: the full statement WOULD hold if prepare_call performed the input check
+   before reading the callee's code size (step_gen true); kept to show that this one reordering is
+   all that separates the code from the full statement.  The headline for the unchanged code is
+   C30_touch_inputs_refuted + C30_touch_inputs_partial + C30_no_foreign_state below. *)
 Theorem C30_touch_inputs_fixed :
   forall (s : ist) (prog : list (iop * bool)) (t : touch),
     frames_ok s = true -> In t (fst (run_gen true s prog)) -> touch_ok s t = true.
